@@ -26,6 +26,8 @@ energy are returned per unit of Lazarus time.  The mass residual in solver time 
 geometry 3, ρ₀ = 1 and any 6/5 ≤ λ ≤ 2 it is ≠ 0.
 -/
 import EPV.Spec.Guderley
+import EPV.Gen.GudF
+import EPV.Gen.GudEnergy
 import EPV.Lemmas.Guderley
 import EPV.Lemmas.Euler1Db
 
@@ -164,6 +166,97 @@ example : ∃ (lam V C R gam rho0 r tL : ℝ), 0 < r ∧ tL ≠ 0 ∧ -1 < tL / 
     ∧ gam - 1 ≠ 0 ∧ rho0 ≠ 0 ∧ (C * C - (V + 1) ^ 2) * (tL / r ^ lam) * lam ≠ 0 ∧ V + 1 ≠ 0 ∧ R ≠ 0 :=
   ⟨7 / 5, -5 / 6, 1 / 2, 6, 7 / 5, 1, 1, -1, by norm_num, by norm_num, by norm_num, by norm_num, by norm_num,
     by norm_num, by norm_num, by norm_num, by norm_num, by norm_num⟩
+
+/-! ### The other traced pieces of the similarity system
+
+`get_shock_position` finds B with the right-hand side `f`, `state` integrates `g`; `energy` is the
+consistency check both use.  They are the SAME system: -/
+
+/-- the GudG argument record that corresponds to a GudF one -/
+def fToG (p : GudF.P) (x : ℝ) : GudG.P :=
+  { gamma := p.gamma, lambda_ := p.lambda_, nu := p.nu, x := x, V := p.V, C := p.C, R := p.R }
+
+/-- `f` with intno ≠ 2 (the x-integration of `Guderley`) is `g` -/
+theorem f_eq_g (p : GudF.P) (h : p.intno ≠ 2) :
+    GudF.dV p = GudG.dV (fToG p p.x) ∧ GudF.dC p = GudG.dC (fToG p p.x) ∧ GudF.dR p = GudG.dR (fToG p p.x) := by
+  have hc : ¬ GudF.c0 p := h
+  simp only [epv_tree, hc, if_false, epv_leaf, fToG, and_self]
+
+/-- `f` with intno = 2 is `g` transformed to the variable w = k x^(-σ) (dw/dx = -σ w / x), for every
+x ≠ 0: the value of `f` at abscissa w equals (dy/dx)(x) / (dw/dx) -/
+theorem f_eq_g_in_w (p : GudF.P) (h : p.intno = 2) (x : ℝ) (hx : x ≠ 0) (hw : p.x ≠ 0) (hσ : p.sigma ≠ 0) :
+    GudF.dV p = GudG.dV (fToG p x) / (-p.sigma * p.x / x)
+    ∧ GudF.dC p = GudG.dC (fToG p x) / (-p.sigma * p.x / x)
+    ∧ GudF.dR p = GudG.dR (fToG p x) / (-p.sigma * p.x / x) := by
+  have hc : GudF.c0 p := h
+  simp only [epv_tree, hc, if_true, epv_leaf, fToG]
+  refine ⟨?_, ?_, ?_⟩ <;>
+  · by_cases hD : (p.C * p.C - (p.V + 1) ^ 2) = 0
+    · simp [hD]
+    by_cases hl : p.lambda_ = 0
+    · simp [hl]
+    field_simp
+
+/-- **the adiabatic integral (Lazarus 2.7) is a first integral of the traced system**: along any
+solution of `g` the logarithmic derivative of (C/x)² (1+V)^q R^(q-γ+1), q = 2(λ-1)/(ν+1) — the
+quantity `ramsey.energy` evaluates (model GudEnergy) — vanishes -/
+theorem energy_integral_logderiv (p : GudG.P) (hγ : p.gamma ≠ 0) (hx : p.x ≠ 0) (hl : p.lambda_ ≠ 0)
+    (hD : p.C * p.C - (p.V + 1) ^ 2 ≠ 0) (hV : p.V + 1 ≠ 0) (hC : p.C ≠ 0) (hR : p.R ≠ 0) (hν : p.nu + 1 ≠ 0) :
+    2 * GudG.dC p / p.C - 2 / p.x + (2 * (p.lambda_ - 1) / (p.nu + 1)) * GudG.dV p / (p.V + 1)
+      + (2 * (p.lambda_ - 1) / (p.nu + 1) - p.gamma + 1) * GudG.dR p / p.R = 0 := by
+  simp only [epv_tree, epv_leaf]
+  obtain ⟨d, hd⟩ : ∃ d, p.C * p.C - (p.V + 1) ^ 2 = d := ⟨_, rfl⟩
+  rw [hd] at hD ⊢
+  field_simp
+  subst hd
+  ring
+
+/-- the quantity `ramsey.energy` returns is that integral minus its reference value -/
+theorem energy_is_integral (p : GudEnergy.P) (h : (3022314549036573 : ℝ) / 302231454903657293676544 ≤ |p.x|) :
+    GudEnergy.energy p
+      = (p.C / p.x) ^ 2 * (1 + p.V) ^ (2 * (p.lambda_ - 1) / (p.nu + 1))
+          * p.R ^ (2 * (p.lambda_ - 1) / (p.nu + 1) - p.gamma + 1) - p.energy0 := by
+  have hc : GudEnergy.c0 p := h
+  simp only [epv_tree, hc, if_true, epv_leaf]
+
+/-- **analytic form**: along any solution of the traced system the value `ramsey.energy` returns
+(away from its |x| < 1e-8 cut-off: leaf 0 of GudEnergy) has derivative 0 — the consistency check of
+`Guderley` / the redundancy of the R-equation noted in `f` and `g` -/
+theorem energy_integral_conserved (V C R : ℝ → ℝ) (gam lam nu e0 x : ℝ)
+    (h : Gud.SolvesAt V C R lam gam nu x) (hx : x ≠ 0) (hl : lam ≠ 0) (hg : gam ≠ 0)
+    (hD : Gud.Den lam (V x) (C x) x ≠ 0) (hV : 0 < 1 + V x) (hR : 0 < R x) (hC : C x ≠ 0) (hν : nu + 1 ≠ 0) :
+    HasDerivAt (fun y => GudEnergy.L0.energy
+      { C := C y, R := R y, V := V y, energy0 := e0, gamma := gam, lambda_ := lam, nu := nu, x := y }) 0 x := by
+  simp only [epv_leaf]
+  set q := 2 * (lam - 1) / (nu + 1) with hq
+  have hA := (h.hC.div (hasDerivAt_id' x) hx).pow 2
+  have hB := (h.hV.const_add 1).rpow_const (p := q) (Or.inl hV.ne')
+  have hRr := h.hR.rpow_const (p := q - gam + 1) (Or.inl hR.ne')
+  have hall := ((hA.mul hB).mul hRr).sub_const e0
+  refine hall.congr_deriv ?_
+  clear hall hA hB hRr
+  simp only [Pi.mul_apply, Pi.div_apply, Pi.pow_apply, Nat.cast_ofNat, show (2 : ℕ) - 1 = 1 from rfl, pow_one]
+  rw [Real.rpow_sub_one hV.ne' q, Real.rpow_sub_one hR.ne' (q - gam + 1)]
+  have hV1 : V x + 1 ≠ 0 := by linarith
+  simp only [Gud.Den, Gud.N0, Gud.N1, Gud.N2] at *
+  have p1 := Real.rpow_pos_of_pos hV q
+  have p2 := Real.rpow_pos_of_pos hR (q - gam + 1)
+  generalize (1 + V x) ^ q = P1 at *
+  generalize R x ^ (q - gam + 1) = P2 at *
+  generalize V x = v at *
+  generalize C x = c at *
+  generalize R x = ρ at *
+  have hD0 : c * c - (v + 1) ^ 2 ≠ 0 := fun h0 => hD (by rw [h0]; ring)
+  obtain ⟨d, hd⟩ : ∃ d, c * c - (v + 1) ^ 2 = d := ⟨_, rfl⟩
+  rw [hd] at hD0 ⊢
+  have hv' : 1 + v ≠ 0 := by linarith
+  clear_value q
+  subst hq
+  field_simp
+  subst hd
+  ring
+
+theorem energy_leaves : GudEnergy.okLeaves = [0, 1] := rfl
 
 /-! ### FINDING: the same fields as functions of the solver's own time argument -/
 
